@@ -93,6 +93,7 @@ type RawLemma struct {
 	GenName string
 	Reveal []string
 	TimeoutS int
+	Induction []string // "induction base step": proved by the induction principle from two other lemmas
 }
 
 var reFuncHdr = regexp.MustCompile(`^func\s*(\(([^)]*)\))?\s*([A-Za-z_][A-Za-z0-9_]*)\s*\(([^)]*)\)\s*(.*)$`)
@@ -221,6 +222,8 @@ func parseContractFile(path string) (*ContractFile, error) {
 					curLemma.Reveal = append(curLemma.Reveal, strings.Fields(strings.ReplaceAll(rest, ",", " "))...)
 				case "timeout":
 					fmt.Sscanf(rest, "%d", &curLemma.TimeoutS)
+				case "induction":
+					curLemma.Induction = strings.Fields(rest)
 				default:
 					return fmt.Errorf("%s:%d: unknown lemma clause %q", path, ln, word)
 				}
@@ -256,7 +259,7 @@ func parseContractFile(path string) (*ContractFile, error) {
 				cur.Locals = rest
 			case "split":
 				cur.Split = rest
-			case "requires", "ensures", "assigns", "assume", "use", "gassign":
+			case "requires", "ensures", "assigns", "assume", "use", "usepost", "gassign":
 				c := &RawClause{Kind: word, Loop: -1, Line: ln}
 				c.Label, c.Props, c.Text = splitLabel(rest)
 				if !layerSkips(c.Props) {
@@ -695,7 +698,7 @@ func genOverlay(cf *ContractFile) (string, error) {
 					return "", fmt.Errorf("%s:%d: %v", c.File, cl.Line, err)
 				}
 				fmt.Fprintf(body, "\t_ = govcGassign(%d, %s, %s, %s)\n", id, rewriteBuiltins(strings.ReplaceAll(strings.TrimSpace(parts[0]), ", *)", ", govcStar)")), rewriteBuiltins(lv), rewriteBuiltins(lc))
-			case "use":
+			case "use", "usepost":
 				fmt.Fprintf(body, "\t_ = govcClause(%d, lemma_%s)\n", id, rewriteBuiltins(strings.TrimSpace(cl.Text)))
 			case "decreases":
 				lb, err := lowerExpr(cl.Text)
